@@ -182,17 +182,16 @@ Section Proofs.
     assert (Hstep : cache_seq size ((k', vs) :: r)
                     = map (pair k') (chunks size (vals_dedup vs)) ++ cache_seq size r) by reflexivity.
     rewrite Hstep, out_content_app, IH by exact Hnd'. clear Hstep.
-    change (concat (map (fun e : N * arr => if (fst e =? k)%N then snd e else []) ((k', vs) :: r)))
-      with ((if (k' =? k)%N then vs else [])
-            ++ concat (map (fun e : N * arr => if (fst e =? k)%N then snd e else []) r)).
+    cbn [map concat fst snd].
     destruct (N.eqb_spec k' k) as [->|Hne].
     - unfold out_content at 1. rewrite seq_points_pair_same.
       unfold chunks. rewrite chunks_fuel_content by (auto; lia).
-      assert (Hnil : concat (map (fun e : N * arr => if (fst e =? k)%N then snd e else []) r) = []).
+      match goal with |- context [last_wins_sorted (concat (map ?f r))] =>
+        assert (Hnil : concat (map f r) = []) end.
       { clear -Hni. induction r as [|[k2 v2] r IH]; [reflexivity|]. cbn [map concat fst snd].
         destruct (N.eqb_spec k2 k) as [->|_]; [exfalso; apply Hni; left; reflexivity|].
         apply IH. intro H. apply Hni. right. exact H. }
-      Show. rewrite Hnil. cbn. rewrite !app_nil_r. apply dedup_last_wins.
+      rewrite Hnil. cbn. rewrite !app_nil_r. apply dedup_last_wins.
     - unfold out_content at 1. rewrite seq_points_pair_other by exact Hne. reflexivity.
   Qed.
 End Proofs.
